@@ -376,11 +376,11 @@ Definition g_methods : table := [
   ("Generator.Filter", []);
   (* generator.go:99 *)
   ("Generator.AsAny", []);
-  (* combinators.go:287 *)
+  (* combinators.go:289 *)
   ("asAnyGen.String", [
     IAcc F_asAnyGen_gen false;
     ICall "fmt.Sprintf"]);
-  (* combinators.go:291 *)
+  (* combinators.go:293 *)
   ("asAnyGen.value", [
     IAcc F_asAnyGen_gen false;
     IAcc F_pkg_anyRuneGen false;
@@ -415,12 +415,12 @@ Definition g_methods : table := [
     IAcc F_customGen_fn false;
     ICall "g.fn";
     ICall "t.failOnError";
-    ICall "t.Failed";
-    ICall "t.cleanup"]);
-  (* combinators.go:73 *)
+    ICall "t.cleanup";
+    ICall "t.Failed"]);
+  (* combinators.go:75 *)
   ("deferredGen.String", [
     ICall "fmt.Sprintf"]);
-  (* combinators.go:78 *)
+  (* combinators.go:80 *)
   ("deferredGen.value", [
     IOnce O_deferredGen_once [
       IAcc F_deferredGen_fn false;
@@ -429,11 +429,11 @@ Definition g_methods : table := [
     IAcc F_deferredGen_g false;
     IAcc F_pkg_anyRuneGen false;
     ICall "g.g.value"]);
-  (* combinators.go:97 *)
+  (* combinators.go:99 *)
   ("filteredGen.String", [
     IAcc F_filteredGen_g false;
     ICall "fmt.Sprintf"]);
-  (* combinators.go:101 *)
+  (* combinators.go:103 *)
   ("filteredGen.value", [
     IAcc F_filteredGen_g false;
     IAcc F_pkg_anyRuneGen false;
@@ -575,55 +575,55 @@ Definition g_methods : table := [
     IAcc F_mapGen_keyFn false;
     ICall "g.keyFn";
     ICall "repeat.reject"]);
-  (* combinators.go:141 *)
+  (* combinators.go:143 *)
   ("mappedGen.String", [
     IAcc F_mappedGen_g false;
     IAcc F_mappedGen_fn false;
     ICall "fmt.Sprintf"]);
-  (* combinators.go:145 *)
+  (* combinators.go:147 *)
   ("mappedGen.value", [
     IAcc F_mappedGen_g false;
     IAcc F_pkg_anyRuneGen false;
     ICall "g.g.value";
     IAcc F_mappedGen_fn false;
     ICall "g.fn"]);
-  (* combinators.go:231 *)
+  (* combinators.go:233 *)
   ("oneOfGen.String", [
     IAcc F_oneOfGen_gens false;
     IAcc F_oneOfGen_gens false;
     ICall "g.String";
     ICall "strings.Join";
     ICall "fmt.Sprintf"]);
-  (* combinators.go:240 *)
+  (* combinators.go:242 *)
   ("oneOfGen.value", [
     IAcc F_oneOfGen_gens false;
     IAcc F_oneOfGen_gens false;
     IAcc F_pkg_anyRuneGen false;
     ICall "g.gens.value"]);
-  (* combinators.go:194 *)
+  (* combinators.go:196 *)
   ("permGen.String", [
     IAcc F_permGen_slice false;
     ICall "fmt.Sprintf"]);
-  (* combinators.go:199 *)
+  (* combinators.go:201 *)
   ("permGen.value", [
     IAcc F_permGen_slice false;
     ICall "repeat.more"]);
-  (* combinators.go:259 *)
+  (* combinators.go:261 *)
   ("ptrGen.String", [
     IAcc F_ptrGen_elem false;
     IAcc F_ptrGen_allowNil false;
     ICall "fmt.Sprintf"]);
-  (* combinators.go:263 *)
+  (* combinators.go:265 *)
   ("ptrGen.value", [
     IAcc F_ptrGen_allowNil false;
     IAcc F_ptrGen_elem false;
     IAcc F_pkg_anyRuneGen false;
     ICall "g.elem.value"]);
-  (* strings.go:266 *)
+  (* strings.go:265 *)
   ("regexpSliceGen.String", [
     IAcc F_regexpGen_expr false;
     ICall "fmt.Sprintf"]);
-  (* strings.go:297 *)
+  (* strings.go:296 *)
   ("regexpSliceGen.value", [
     IAcc F_regexpGen_syn false;
     IAcc F_pkg_anyRuneGen false;
@@ -652,11 +652,11 @@ Definition g_methods : table := [
     ICall "b.Bytes";
     IAcc F_regexpGen_re false;
     ICall "g.re.Match"]);
-  (* strings.go:263 *)
+  (* strings.go:262 *)
   ("regexpStringGen.String", [
     IAcc F_regexpGen_expr false;
     ICall "fmt.Sprintf"]);
-  (* strings.go:294 *)
+  (* strings.go:293 *)
   ("regexpStringGen.value", [
     IAcc F_regexpGen_syn false;
     IAcc F_pkg_anyRuneGen false;
@@ -702,7 +702,7 @@ Definition g_methods : table := [
     IAcc F_runeGen_runes false;
     IAcc F_runeGen_tables false;
     IAcc F_runeGen_tables false]);
-  (* combinators.go:169 *)
+  (* combinators.go:171 *)
   ("sampledGen.String", [
     IAcc F_sampledGen_slice false;
     IAcc F_sampledGen_slice false;
@@ -710,7 +710,7 @@ Definition g_methods : table := [
     IAcc F_sampledGen_slice false;
     IAcc F_sampledGen_slice false;
     ICall "fmt.Sprintf"]);
-  (* combinators.go:177 *)
+  (* combinators.go:179 *)
   ("sampledGen.value", [
     IAcc F_sampledGen_slice false;
     IAcc F_sampledGen_slice false]);
@@ -786,8 +786,8 @@ Definition g_methods : table := [
     ICall "repeat.more";
     IAcc F_stringGen_elem false;
     ICall "g.elem.value";
-    ICall "utf8.RuneLen";
     ICall "b.Len";
+    ICall "utf8.RuneLen";
     ICall "repeat.reject";
     ICall "b.WriteRune";
     ICall "b.String"])
